@@ -177,7 +177,28 @@ def _call(obj, method, prob, seed):
     if type(obj).__name__ == "HigherOrderNewtonSchulzPseudoinverse":
         out = out[:2]          # third value is wall-clock time per iteration
     after = [sha(a) for a in args]
-    return digest(out), before == after
+    dg = digest(out)
+    # what was returned belongs to the caller, who now works on it in place: a solver that kept a reference (a cached
+    # solution, a history list it goes on appending to) shows it in the next call of the history
+    def scribble(o):
+        if isinstance(o, np.ndarray) and o.size and o.flags.writeable:
+            try:
+                o[...] = o * 0 + (np.quaternion(7.0, 1.0, 0.0, 0.0) if o.dtype == np.quaternion else 7)
+            except Exception:
+                pass
+        elif isinstance(o, list):
+            for x in o:
+                scribble(x)
+            o.append(12345.0)
+        elif isinstance(o, tuple):
+            for x in o:
+                scribble(x)
+        elif isinstance(o, dict):
+            for x in list(o.values()):
+                scribble(x)
+            o["scribbled-by-caller"] = True
+    scribble(out)
+    return dg, before == after
 
 
 def _history_job(args):
